@@ -550,8 +550,12 @@ Decoded(env, s, d, v, D) ==
              /\ LET m == ObjVal(v, "AdditionalProperties") IN
                 IF extra = {} THEN m.t \in {"null", "obj"} /\ (m.t = "obj" => m.o = <<>>)
                 ELSE m.t = "obj" /\ ObjKeys(m) = extra /\ \A k \in extra : JEq(ObjVal(m, k), ObjVal(d, k))
-  ELSE IF Main(s) = "object" THEN        \* no declared properties: a Go map
-       d.t = "obj" => (v.t = "obj" /\ ObjKeys(v) = ObjKeys(d) /\ \A k \in ObjKeys(d) : JEq(ObjVal(v, k), ObjVal(d, k)))
+  ELSE IF Main(s) = "object" THEN        \* no declared properties: a Go map; typed values hold their documents in turn
+       d.t = "obj" => (v.t = "obj" /\ ObjKeys(v) = ObjKeys(d)
+                       /\ \A k \in ObjKeys(d) :
+                             IF Has(s, "additionalProperties") /\ s.additionalProperties.k = "s"
+                             THEN Decoded(env, s.additionalProperties.s, ObjVal(d, k), ObjVal(v, k), D)
+                             ELSE JEq(ObjVal(v, k), ObjVal(d, k)))
   ELSE IF Main(s) = "array" THEN
        /\ v.t = "arr" /\ Len(v.a) = Len(d.a)
        /\ \A i \in DOMAIN d.a : Decoded(env, IF Has(s, "items") THEN s.items ELSE [type |-> <<>>], d.a[i], v.a[i], D)
@@ -575,6 +579,10 @@ Reproduced(env, s, d, o, D) ==
   ELSE IF Main(s) = "array" THEN
        o.t = "arr" /\ Len(o.a) = Len(d.a)
        /\ \A i \in DOMAIN d.a : Reproduced(env, IF Has(s, "items") THEN s.items ELSE [type |-> <<>>], d.a[i], o.a[i], D)
+  ELSE IF Main(s) = "object" /\ d.t = "obj" /\ Has(s, "additionalProperties") /\ s.additionalProperties.k = "s" THEN
+       \* a Go map with typed values: every non-empty member is reproduced
+       o.t = "obj" /\ \A k \in ObjKeys(d) :
+           NonEmpty(ObjVal(d, k)) => (ObjHas(o, k) /\ Reproduced(env, s.additionalProperties.s, ObjVal(d, k), ObjVal(o, k), D))
   ELSE JEq(o, d)
 
 =============================================================================
